@@ -54,17 +54,13 @@ def summaryStr (h : Heap) : String :=
   let (n, s) := strSummary h
   ":" ++ toString n ++ ":" ++ hex16 s
 
-/-- fuel for the pointer-following functions of the heap model (`cleanVal`, `cloneH`): more than the nesting depth / size of
-    any value of a request -/
-def FUEL : Nat := 1000000
-
 def run (ops : List (List String)) : String :=
   let hops := ops.map parseOp
-  let states := traceH FUEL hops HState.empty
+  let states := traceH hops HState.empty
   let (out, last) := states.foldl (fun (acc : List String × HState) st' =>
       let d : Int := (total st'.h : Int) - (total acc.2.h : Int)
       ((toString d ++ summaryStr st'.h) :: acc.1, st')) (([] : List String), HState.empty)
-  let fin := match releaseAll FUEL last with
+  let fin := match releaseAll last with
     | some h => toString (total h)
     | none => "fault"
   "vh " ++ " ".intercalate out.reverse ++ " # end=" ++ fin
